@@ -11,7 +11,9 @@
                         by every step whose `config` arguments are ok (by EVERY
                         step: CtxFacts.reachable_cfgs_load, since `config`
                         refuses an empty section name and line feeds:
-                        [hostile_config_refused]); a file broken BY HAND:
+                        [hostile_config_refused]; it also refuses a key the
+                        loader would read back as another key:
+                        [config_ambiguous_key_refused]); a file broken BY HAND:
                         [broken_config_refuses_everything].
    4. effective identity: local over global, at the level of [ctx_of].
    5. the commit gate and the identity recorded in the commit text.  *)
@@ -130,13 +132,13 @@ Proof.
   intros sep key a b H. rewrite <- (lf_join_split_all sep key), H. reflexivity.
 Qed.
 
-Lemma config_args_ok_iff : forall key value sec k,
+Lemma config_lines_ok_iff : forall key value sec k,
   split_all x2e key = [sec; k] ->
-  (config_args_ok sec key value = true <->
+  (config_lines_ok sec key value = true <->
    sec <> [] /\ ~ In c_nl sec /\ ~ In c_nl k /\ ~ In c_nl value).
 Proof.
   intros key value sec k Hsp. pose proof (cc_split2_join x2e key sec k Hsp) as Hk.
-  unfold config_args_ok. rewrite !andb_true_iff, !negb_true_iff, !cc_contains_byte_iff. split.
+  unfold config_lines_ok. rewrite !andb_true_iff, !negb_true_iff, !cc_contains_byte_iff. split.
   - intros [[Hne Hkey] Hv]. split; [intro E; subst sec; discriminate Hne|].
     split; [intro Hin; apply Hkey; rewrite Hk; apply in_or_app; left; exact Hin|].
     split; [intro Hin; apply Hkey; rewrite Hk; apply in_or_app; right; right; exact Hin | exact Hv].
@@ -146,13 +148,34 @@ Proof.
       destruct Hin as [Hin|[Hin|Hin]]; [exact (Hs Hin) | discriminate Hin | exact (Hkk Hin)].
 Qed.
 
+(* the second check of the guard: no '=', no TAB, no white space around the key *)
+Lemma config_key_ok_iff : forall k,
+  config_key_ok k = true <-> ~ In x3d k /\ ~ In c_tab k /\ trim_space k = k.
+Proof.
+  intro k. unfold config_key_ok.
+  rewrite !andb_true_iff, !negb_true_iff, !cc_contains_byte_iff, bytes_eqb_eq. tauto.
+Qed.
+
+(* the whole guard: a loadable section name, a key the loader reads back as
+   itself ([ok_key]: no line feed, no TAB, no '=', no white space around it) and
+   a value without line feed *)
+Lemma config_args_ok_iff : forall key value sec k,
+  split_all x2e key = [sec; k] ->
+  (config_args_ok sec k key value = true <->
+   sec <> [] /\ ~ In c_nl sec /\ ok_key k /\ ~ In c_nl value).
+Proof.
+  intros key value sec k Hsp. unfold config_args_ok.
+  rewrite andb_true_iff, (config_lines_ok_iff key value sec k Hsp), config_key_ok_iff.
+  unfold ok_key, ok_val. tauto.
+Qed.
+
 (* the arguments in the domain of C20 pass the guard *)
 Lemma ok_args_guard : forall key value sec k,
   split_all x2e key = [sec; k] -> ok_sec sec -> ok_key k -> ok_val value ->
-  config_args_ok sec key value = true.
+  config_args_ok sec k key value = true.
 Proof.
-  intros key value sec k Hsp [Hne Hs] [[Hk _] _] [Hv _].
-  apply (config_args_ok_iff key value sec k Hsp). repeat split; assumption.
+  intros key value sec k Hsp [Hne Hs] Hk [Hv _].
+  apply (config_args_ok_iff key value sec k Hsp). repeat split; try assumption; apply Hk.
 Qed.
 
 (* ================================================================== *)
@@ -301,13 +324,14 @@ Proof. intros c Hc. cbn [cfg_of] in Hc. injection Hc as Hc. subst c. exact wf_cf
 
 (* the file-system writes of one `config` call; [None]: the call is refused
    (wrong number of arguments, a key that is not <section>.<key>, an empty
-   section name, or a line feed in the key or the value) *)
+   section name, a line feed in the key or the value, or a key with '=', a TAB
+   or white space around it) *)
 Definition config_trace (w : world) (x : ctx) (global : bool) (args : list bytes) : option (list effect) :=
   match args with
   | [key; value] =>
       match split_all x2e key with
       | [sec; k] =>
-          if config_args_ok sec key value then
+          if config_args_ok sec k key value then
             Some (if global then
                     (match w_gcfg w with CfgAbsent => [ESetGcfg (CfgFile (Some []))] | CfgFile _ => [] end)
                     ++ [ESetGcfg (cfg_written (cfg_add (x_g x) sec k value))]
@@ -329,7 +353,7 @@ Proof.
   destruct args as [|key [|value [|a3 ar]]]; try reflexivity.
   destruct (split_all x2e key) as [|sec [|k [|s3 sr]]]; try reflexivity.
   rewrite ev_bind_guard.
-  destruct (config_args_ok sec key value); [|reflexivity].
+  destruct (config_args_ok sec k key value); [|reflexivity].
   destruct g.
   - ev. destruct (w_gcfg w) as [|o] eqn:Eg.
     + ev. cbn [app]. rewrite <- app_assoc. reflexivity.
@@ -889,7 +913,7 @@ Qed.
    before this check such a call wrote a file that no command could load
    afterwards.  In every world, loaded or not. *)
 Theorem hostile_config_refused : forall e g key value w,
-  (forall sec k, split_all x2e key = [sec; k] -> config_args_ok sec key value = false) ->
+  (forall sec k, split_all x2e key = [sec; k] -> config_args_ok sec k key value = false) ->
   step (ACmd e (CConfig g [key; value])) w = (w, OErr, []).
 Proof.
   intros e g key value w Hbad.
@@ -904,7 +928,7 @@ Corollary config_newline_in_value_refused : forall e g key value w,
   In c_nl value -> step (ACmd e (CConfig g [key; value])) w = (w, OErr, []).
 Proof.
   intros e g key value w Hin. apply hostile_config_refused. intros sec k Hsp.
-  destruct (config_args_ok sec key value) eqn:E; [|reflexivity].
+  destruct (config_args_ok sec k key value) eqn:E; [|reflexivity].
   apply (config_args_ok_iff key value sec k Hsp) in E. destruct E as (_ & _ & _ & Hv). contradiction.
 Qed.
 
@@ -912,8 +936,8 @@ Corollary config_newline_in_key_refused : forall e g key value w,
   In c_nl key -> step (ACmd e (CConfig g [key; value])) w = (w, OErr, []).
 Proof.
   intros e g key value w Hin. apply hostile_config_refused. intros sec k Hsp.
-  destruct (config_args_ok sec key value) eqn:E; [|reflexivity].
-  apply (config_args_ok_iff key value sec k Hsp) in E. destruct E as (_ & Hs & Hk & _).
+  destruct (config_args_ok sec k key value) eqn:E; [|reflexivity].
+  apply (config_args_ok_iff key value sec k Hsp) in E. destruct E as (_ & Hs & [[Hk _] _] & _).
   rewrite (cc_split2_join x2e key sec k Hsp) in Hin. apply in_app_or in Hin.
   destruct Hin as [Hin|[Hin|Hin]]; [contradiction | discriminate Hin | contradiction].
 Qed.
@@ -926,16 +950,33 @@ Proof.
   injection Hsp as Hsec _. subst sec. reflexivity.
 Qed.
 
+(* `config` REFUSES a key (the part after the dot) that holds an '=' or a TAB
+   or has white space around it: the loader would read such a key back as
+   ANOTHER key (tabs removed, split at the first '=', trimmed), whose value the
+   call would silently overwrite *)
+Corollary config_ambiguous_key_refused : forall e g key value sec k w,
+  split_all x2e key = [sec; k] ->
+  In x3d k \/ In c_tab k \/ trim_space k <> k ->
+  step (ACmd e (CConfig g [key; value])) w = (w, OErr, []).
+Proof.
+  intros e g key value sec k w Hsp Hbad. apply hostile_config_refused. intros sec' k' Hsp'.
+  rewrite Hsp in Hsp'. injection Hsp' as <- <-.
+  destruct (config_args_ok sec k key value) eqn:E; [|reflexivity].
+  apply (config_args_ok_iff key value sec k Hsp) in E.
+  destruct E as (_ & _ & [(_ & Ht & Htr) He] & _).
+  destruct Hbad as [H|[H|H]]; contradiction.
+Qed.
+
 (* conversely, an accepted call passed the guard *)
 Lemma config_trace_some_guard : forall w x g args tr,
   config_trace w x g args = Some tr ->
   exists key value sec k, args = [key; value] /\ split_all x2e key = [sec; k] /\
-    sec <> [] /\ ~ In c_nl sec /\ ~ In c_nl k /\ ~ In c_nl value.
+    sec <> [] /\ ~ In c_nl sec /\ ok_key k /\ ~ In c_nl value.
 Proof.
   intros w x g args tr Htr. unfold config_trace in Htr.
   destruct args as [|key [|value [|a3 ar]]]; try discriminate Htr.
   destruct (split_all x2e key) as [|sec [|k [|s3 sr]]] eqn:Esp; try discriminate Htr.
-  destruct (config_args_ok sec key value) eqn:E; [|discriminate Htr].
+  destruct (config_args_ok sec k key value) eqn:E; [|discriminate Htr].
   exists key, value, sec, k. split; [reflexivity|]. split; [exact Esp|].
   apply (config_args_ok_iff key value sec k Esp). exact E.
 Qed.
@@ -1020,13 +1061,14 @@ Example ex_newline_cannot_inject_key :
   w_lcfg (run (h ++ [bad]) w_empty) = CfgFile (Some [(str "user", [(str "email", str "me@x.yy")])]).
 Proof. vm_compute. split; reflexivity. Qed.
 
-(* a TAB inside, white space around, '=' in the key: accepted, but another
-   value / key is what the next process sees *)
+(* a TAB inside the VALUE, white space around it: accepted, but another value
+   is what the next process sees; '=' in the KEY (read back as another key
+   before the second repair): refused, nothing written *)
 Example ex_not_ok_but_loads :
   w_lcfg (run [ACmd env0 CInit;
                ACmd env0 (CConfig false [str "a.k"; [x20; x78; x09; x79; x20]]);
                ACmd env0 (CConfig false [str "a.p=q"; str "v"])] w_empty)
-  = CfgFile (Some [(str "a", [(str "k", str "xy"); (str "p", str "q = v")])]).
+  = CfgFile (Some [(str "a", [(str "k", str "xy")])]).
 Proof. vm_compute. reflexivity. Qed.
 
 Local Close Scope string_scope.
@@ -1208,7 +1250,7 @@ Proof.
   intros w x args tr Htr. unfold config_trace in Htr.
   destruct args as [|key [|value [|a3 ar]]]; try discriminate Htr.
   destruct (split_all x2e key) as [|sec [|k [|s3 sr]]]; try discriminate Htr.
-  destruct (config_args_ok sec key value); [|discriminate Htr].
+  destruct (config_args_ok sec k key value); [|discriminate Htr].
   injection Htr as Htr. subst tr. destruct (w_gcfg w); reflexivity.
 Qed.
 
@@ -1218,7 +1260,7 @@ Proof.
   intros w x args tr Htr. unfold config_trace in Htr.
   destruct args as [|key [|value [|a3 ar]]]; try discriminate Htr.
   destruct (split_all x2e key) as [|sec [|k [|s3 sr]]]; try discriminate Htr.
-  destruct (config_args_ok sec key value); [|discriminate Htr].
+  destruct (config_args_ok sec k key value); [|discriminate Htr].
   injection Htr as Htr. subst tr. reflexivity.
 Qed.
 
@@ -1586,6 +1628,7 @@ Print Assumptions broken_config_refuses_everything.
 Print Assumptions broken_config_frozen.
 Print Assumptions broken_config_refuses_fault.
 Print Assumptions hostile_config_refused.
+Print Assumptions config_ambiguous_key_refused.
 Print Assumptions config_newline_in_value_refused.
 Print Assumptions config_newline_in_key_refused.
 Print Assumptions config_empty_section_refused.
